@@ -990,6 +990,46 @@ func E3BoundsExtrema(c *core.Ctx, r *core.Report) {
 		})
 		return found
 	}
+	// the two axes are independent: no if/else chain folds only x accumulators in one branch and only y
+	// accumulators in another
+	chains := 0
+	ast.Inspect(fd.Body, func(n ast.Node) bool {
+		is, ok := n.(*ast.IfStmt)
+		if !ok || is.Else == nil {
+			return true
+		}
+		chains++
+		var xOnly, yOnly ast.Node
+		classify := func(b ast.Node) {
+			fs := foldsIn(b)
+			x, y := fs[0] || fs[2], fs[1] || fs[3]
+			if x && !y && xOnly == nil {
+				xOnly = b
+			}
+			if y && !x && yOnly == nil {
+				yOnly = b
+			}
+		}
+		classify(is.Body)
+		switch e := is.Else.(type) {
+		case *ast.BlockStmt:
+			classify(e)
+		case *ast.IfStmt:
+			classify(e.Body) // deeper links of the chain are visited as their own chain with their predecessor
+			if e.Else != nil {
+				classify(e.Else)
+			}
+		}
+		if xOnly != nil && yOnly != nil {
+			r.Fail("E3.axes-exclusive", fmt.Sprintf("canvas.Path.Bounds|if/else chain `%s`", c.Src(is.Cond)), c.Pos(is.Pos()), "one branch of this if/else chain folds an extreme into the x bounds and another into the y bounds: the two are mutually exclusive, but a curve can turn around in x and in y inside one segment (`M10 10Q70 90 30 20`), and the skipped extreme is left outside the box")
+		}
+		return true
+	})
+	r.Rule("E3.axes-exclusive", "Path.Bounds: the interior extremes of the two coordinates are independent, so no if/else chain folds into the x accumulators in one branch and into the y accumulators in another (expected count zero; the mutant of the thorough tier is the positive example)")
+	r.Count("E3.axes-exclusive-chains", chains)
+	if chains > 0 {
+		r.OK("E3.axes-exclusive", "canvas.Path.Bounds|if/else chains", c.Pos(fd.Pos()), fmt.Sprintf("%d chains, none separates the axes", chains))
+	}
 	roots := 0
 	solverCalls := 0
 	for _, cc := range cmdSwitchClauses(p, fd) {
